@@ -128,3 +128,43 @@ def expand_text(rng, V, names):
             out += "*"
         out += w if k == 1 else "%s^%d" % (w, k)
     return out
+
+
+TOKEN = re.compile(r"\*|/|\^-?\d+|\s+|[^\s*/^]+")
+
+
+def struct_names(V, text, single):
+    """The unit a unit expression denotes according to its documented structure -- juxtaposition, `*` and blanks multiply, `/` inverts
+    everything after it, `^n` applies to the unit it follows -- given what each single word means (`single`: word -> names as the
+    implementation reads that word alone). Returns a merged names list, "clash" when one unit occurs under two prefixes, or None when
+    a word is unreadable."""
+    sign = 1
+    acc = {}
+    last = None
+    for tok in TOKEN.findall(text):
+        if tok == "*" or tok.isspace():
+            continue
+        if tok == "/":
+            sign = -sign
+            continue
+        if tok.startswith("^"):
+            if last is None:
+                return None
+            k = int(tok[1:])
+            for u, p, e in last:
+                acc[u] = (acc[u][0] + p * sign * (k - 1), acc[u][1])
+            last = None
+            continue
+        names = single.get(tok)
+        if not names:
+            return None
+        for u, p, e in names:
+            if u in acc and acc[u][1] != e and acc[u][0] != 0:
+                return "clash"
+            acc[u] = (acc.get(u, (0, e))[0] + p * sign, e)
+        last = names
+    return sorted([[u, p, e] for u, (p, e) in acc.items() if p != 0])
+
+
+def words_of(text):
+    return [t for t in TOKEN.findall(text) if t not in ("*", "/") and not t.isspace() and not t.startswith("^")]
